@@ -18,6 +18,9 @@ StepFarBin(e) ==
   /\ e.ev = "farbin"
   /\ \A i \in 1..Len(e.items) :
        LET it == e.items[i] IN Report(e.case, FarFails(it[1], it[2], it[3], it[4], it[5]), it)
+StepEdge(e) ==
+  /\ e.ev = "edge"
+  /\ \A i \in 1..Len(e.items) : Report(e.case, EdgeFails(e.items[i]), e.items[i])
 \* a Rectangle method panicked: the property promises a result for every pair of representable rectangles
 StepPanic(e) == e.ev = "panic" /\ Report(e.case, {"library_call_panicked"}, [msg |-> e.msg, loc |-> e.loc])
 StepUn(e) ==
@@ -36,7 +39,7 @@ StepUn(e) ==
 
 StepXRes(e) == e.ev = "xres" /\ Report(e.case, XResFails(e.r, e.items), [r |-> e.r, items |-> e.items])
 Next == /\ l <= NRec
-        /\ LET e == Rec[l] IN StepCase(e) \/ StepBin(e) \/ StepFarBin(e) \/ StepUn(e) \/ StepXRes(e) \/ StepPanic(e)
+        /\ LET e == Rec[l] IN StepCase(e) \/ StepBin(e) \/ StepFarBin(e) \/ StepEdge(e) \/ StepUn(e) \/ StepXRes(e) \/ StepPanic(e)
         /\ l' = l + 1
 Spec == Init /\ [][Next]_l
 
